@@ -38,6 +38,7 @@ type Options struct {
 	budget                         time.Duration
 	trace                          bool
 	seed                           int
+	native                         bool
 }
 
 func main() {
@@ -59,6 +60,7 @@ func main() {
 	fs.IntVar(&o.maxPaths, "maxpaths", 0, "path budget per harness")
 	fs.DurationVar(&o.budget, "budget", 0, "wall-clock budget for exploration")
 	fs.BoolVar(&o.trace, "trace", false, "trace instructions (single worker)")
+	fs.BoolVar(&o.native, "native", true, "also replay violations natively with go test -overlay when possible")
 	replayFile := fs.String("file", "", "replay file")
 	noEvidence := fs.Bool("noevidence", false, "do not write the evidence file")
 	fs.Parse(os.Args[2:])
@@ -259,6 +261,7 @@ func runCheck(o *Options, writeEvidence bool) int {
 			os.Remove(f)
 		}
 	}
+	nativeTried := 0
 	seenKnown := map[string]bool{}
 	for _, f := range knowns {
 		if !seenKnown[f.Known] {
@@ -270,7 +273,18 @@ func runCheck(o *Options, writeEvidence bool) int {
 		path := filepath.Join(o.outDir, f.Property, fmt.Sprintf("%s-%d.json", strings.TrimPrefix(f.Harness, "verifHarness_"), i))
 		b, _ := json.MarshalIndent(f, "", " ")
 		os.WriteFile(path, b, 0o644)
+		// additionally replay against the real build when the harness allows it (first few only)
+		if nativeTried < 3 && o.native {
+			nativeTried++
+			ran, rep, note := nativeReplay(o, prog, f, path)
+			f.NativeRan, f.NativeReproduced, f.NativeNote = ran, rep, note
+			b, _ = json.MarshalIndent(f, "", " ")
+			os.WriteFile(path, b, 0o644)
+		}
 		fmt.Printf("VIOLATION property=%s replay=%s\n", f.Property, path)
+		if f.NativeNote != "" {
+			fmt.Printf("  native_replay: ran=%v reproduced=%v (%s)\n", f.NativeRan, f.NativeReproduced, f.NativeNote)
+		}
 		fmt.Printf("  harness=%s kind=%s label=%s site=%s class=%s count=%d\n  detail=%s\n  events=%v\n", f.Harness, f.Kind, f.Label, f.Site, f.Class, f.Count, f.Detail, f.Events)
 		exit = 1
 	}
